@@ -165,28 +165,18 @@ func vC10(spec vSpec, maxSteps int, withSub bool) {
 }
 
 func H_C10_update() {
-	if vTier() == 1 {
-		vC10(vSpec{Depth: 3, Width: 2, Kinds: "mlsn", KeyAlpha: "ab", KeyMin: 1, KeyMax: 1, StrAlpha: "xy", StrMin: 1, StrMax: 1, NoListInList: false}, 3, true)
-		return
-	}
-	vC10(vSpec{Depth: 2, Width: 2, Kinds: "mlsn", KeyAlpha: "ab", KeyMin: 1, KeyMax: 1, StrAlpha: "xy", StrMin: 1, StrMax: 1}, 2, true)
+	vC10(vSpec{Depth: vP("depth", 2, 3), Width: vP("width", 2, 2), Kinds: "mlsn", KeyAlpha: "ab", KeyMin: 1, KeyMax: 1, StrAlpha: "xy", StrMin: 1, StrMax: 1}, vP("steps", 2, 3), true)
 }
 
 func H_C10_update_deep() {
-	d, s := 5, 3
-	if vTier() == 1 {
-		d, s = 6, 4
-	}
+	d, s := vP("depth", 5, 6), vP("steps", 3, 4)
 	vC10(vSpec{Depth: d, Width: 1, Kinds: "mlsn", KeyAlpha: "ab", KeyMin: 1, KeyMax: 1, StrAlpha: "xy", StrMin: 1, StrMax: 1}, s, false)
 }
 
 // lists of maps under the addressed key, with sub-keys that match members but not the parent
 func H_C10_update_lists() {
-	d := 4
-	if vTier() == 1 {
-		d = 5
-	}
-	vC10(vSpec{Depth: d, Width: 2, MapWidth: 1, Kinds: "mls", KeyAlpha: "a", KeyMin: 1, KeyMax: 1, StrAlpha: "xy", StrMin: 1, StrMax: 1}, 2, true)
+	d := vP("depth", 4, 5)
+	vC10(vSpec{Depth: d, Width: vP("width", 2, 2), MapWidth: 1, Kinds: "mls", KeyAlpha: "a", KeyMin: 1, KeyMax: 1, StrAlpha: "xy", StrMin: 1, StrMax: 1}, 2, true)
 }
 
 // malformed new values are rejected with an error and without touching the Map
